@@ -35,6 +35,7 @@ AXES = [
     ('factor', [1, 2.5]),
     ('symlinked', [False, True]),
     ('nsw', [4, 5]),                     # even / odd number of template samples
+    ('units', ['um/25000', 'mm/2500.5']),  # geometry in mm (sites < 1 unit apart) and a fractional sampling rate
     ('late_spike', [False, True]),       # the last spike lies after the end of the raw data        # per-spike vectors of the source are links to the sorter's files
 ]
 
@@ -78,6 +79,9 @@ def make_spec(cfg, fill):
         spec.update(n_channels=14, geometry='col14')
     spec['nsw'] = cfg.get('nsw', 4)
     spec['raw_format'] = cfg.get('raw_format', 'dat')
+    if cfg.get('units', 'um/25000') != 'um/25000':
+        spec['geometry'] += '_mm'
+        spec['sample_rate'] = 2500.5
     if cfg.get('late_spike'):
         spec['spike_samples'] = [0, 9, 16, 23, 30, 37, 44, spec['n_raw'] + 5]    # and the first at sample 0
     return spec
@@ -179,6 +183,12 @@ def check(cfg, res):
                                                          rtol=0, atol=1e-12))
                 if not ok:
                     bad.append((name + '-model', key, describe(b), describe(a)))
+            # ... and the positions are those of the source's file (not only of the source's model)
+            fpos = np.asarray(res['src_files'].get('channel_positions.npy'), dtype=np.float64)
+            a = np.asarray(v['channel_positions'], dtype=np.float64)
+            if fpos.ndim == 2 and len(set(map(tuple, fpos.tolist()))) == len(fpos) and not (
+                    a.shape == fpos.shape and np.allclose(a, fpos, rtol=0, atol=1e-12)):
+                bad.append((name + '-model', 'channel_positions-vs-source-file', describe(fpos), describe(a)))
     # source directory
     b, a = res['src_before'], res['src_after']
     subset = ('_phy_spikes_subset.waveforms.npy', '_phy_spikes_subset.spikes.npy',
@@ -230,7 +240,7 @@ def run_case(case, acc, order):
 
 def explore(ctx):
     # (the full product of the 18 axes is 2.9 million conversions, about 4 h: the thorough tier stops at 6)
-    K = 6 if ctx.thorough else 4
+    K = 6 if ctx.thorough else 3
     cases = [{'cfg': c, 'fill': ctx.seed} for c in configs(K)]
     ctx.run_cases(run_case, cases, sweep='deviation-bounded')
     ctx.bounds = {'axes': {a: [str(x) for x in v] for a, v in AXES}, 'max_deviations': K}
